@@ -36,7 +36,10 @@ def main():
             evidence_file="/verif/evidence/%s.json" % pid,
             replay_cmd_template="./check %s --replay {path}" % pid,
             engine="sa",
-            level_claimed=dict(category="other", text=text, design_ref=ref),
+            level_claimed=dict(category="other", text=text + " The rules applied in a run, with their instance counts and "
+                               "floors, are listed in evidence coverage.rules; rules whose subject this property shares "
+                               "with a sibling property are imported from that property's check (DESIGN.md section 9.4); "
+                               "general lints come from sa/lints.py.", design_ref=ref),
             level_note=note,
             technique=technique,
         ))
@@ -54,14 +57,19 @@ def main():
             name="sa",
             path="/verif/sa",
             serves_properties=sorted(CLAIMED),
-            kind_free_text="custom static analysis over Python ast: table evaluator, statement/"
-                           "type/helper table models, template lexers, syntax-directed flow walker, "
-                           "clang JSON AST bounds prover for embedded C helpers",
+            kind_free_text="custom static analysis over Python ast: canonical (ast.unparse, recorded local names) program "
+                           "text, structural patterns with metavariables, table evaluator, statement/type/helper table "
+                           "models with lookup-closure enumeration, decision-table extraction, template lexers, "
+                           "syntax-directed flow walker with path feasibility, general lints, clang JSON AST bounds "
+                           "prover (linear forms + Fourier-Motzkin) for embedded C helpers",
         )],
         checks=checks,
-        notes="Static analysis only. Exit 0 ok / 1 VIOLATION / 2 ANALYSIS-ERROR. Known findings in "
-              "/verif/known_findings.json. Thorough tier adds whole-table closures and the checker "
-              "self-test (seeded in-memory variants of the current /repo source).",
+        notes="Static analysis only: nothing of /repo is imported or executed. Exit 0 ok / 1 VIOLATION / 2 ANALYSIS-ERROR "
+              "(anchor vanished, model out of date, instance count below its floor, self-test failed). Known findings and "
+              "the record of fix commits in /verif/known_findings.json. The quick tier runs every rule (lookup closures "
+              "included); the thorough tier adds the checker self-test: hand-written in-memory variants of the current "
+              "/repo source plus the sub-agent seeded changes under /verif/seeded, each of which must be reported (or stay "
+              "silent, or stop with ANALYSIS-ERROR) as declared. tools/ holds development aids that no check depends on.",
         not_applicable=[dict(property_id=p, reason=r) for p, r in sorted(NOT_APPLICABLE.items())],
     )
     with open(os.path.join(HERE, "MANIFEST.json"), "w") as fp:
